@@ -5,7 +5,7 @@
     source are regenerated into Gen/FsWalk_gen.v on every run and the premises [backend_keys_ok], [walk_ok] (and
     the chain parameters) are discharged for them by kernel-checked instance obligations in checks/c19.py. *)
 From Coq Require Import List NArith Bool Permutation.
-From SV Require Import SM.FsChain SM.FsChainProofs SM.FsChainRel SM.FsChainWitness SM.FsChainRaw SM.FsChainCompose SM.FsChainComplete SM.FsChainNorm SM.FsChainForms SM.FsChainFormsProofs SM.FsChainWhole SM.FsChainWholeProofs SM.FsChainRead SM.FsChainReadProofs SM.FsChainMixed SM.FsChainMixedProofs SM.FsChainAdd SM.FsChainAddProofs.
+From SV Require Import SM.FsChain SM.FsChainProofs SM.FsChainRel SM.FsChainWitness SM.FsChainRaw SM.FsChainCompose SM.FsChainComplete SM.FsChainNorm SM.FsChainForms SM.FsChainFormsProofs SM.FsChainWhole SM.FsChainWholeProofs SM.FsChainRead SM.FsChainReadProofs SM.FsChainMixed SM.FsChainMixedProofs SM.FsChainAdd SM.FsChainAddProofs SM.FsChainWalkGen.
 Import ListNotations.
 Open Scope N_scope.
 
@@ -582,3 +582,39 @@ Theorem c19_case_duplicate_winner_needs_order : forall (C : Type) (container : l
   container [dup_a; dup_A] = container [dup_A; dup_a] ->
   ~ (forall fs q, serve (container fs) q = spec_lookup fs q).
 Proof. intros C. exact winner_needs_order. Qed.
+
+(** ** Round 4: the walk of chains that also contain directories. *)
+
+(** What the chain needs from a member, for one folder ([walk_member_ok] = [lists_sound] /\ [lists_complete]): every file
+    it lists below "prefix joined with folder" has a clean listed name inside the folder that the member, asked for it,
+    answers with that very file; and every clean name inside the folder that the member serves is listed under a name
+    with the same folded key.  From that interface alone: every (path, File) of the de-duplicated walk is what the
+    chain's lookup returns for the path - the file of the first member that has the name. *)
+Theorem c19_chain_walk_from_member_interface : forall dops ms folder x,
+  dedup_ops_ok dops = true -> Forall (walk_member_ok folder) ms ->
+  In x (chain_walk RelDropSegs dops ms folder) ->
+  chain_get ms (fst x) = Some (snd x).
+Proof. exact chain_walk_lookup_closed_gen. Qed.
+(** Folding backends with a sound walk form satisfy the interface (empty or clean prefix and folder), and so does the
+    directory backend as translated - listed names are the stored names, the folder goes through the translated
+    operations - when the folder is exact for it ([folder_exact]: every stored file lying below prefix/folder up to
+    letter case lies below it exactly). *)
+Theorem c19_members_satisfy_walk_interface : forall m folder,
+  okp folder -> gmember_ok folder m -> walk_member_ok folder m.
+Proof. intros m folder Hf [H|H]; [apply sound_member_walk_ok|apply raw_member_walk_ok]; assumption. Qed.
+(** Hence for chains of in-memory, zip, VPK *and directory* members in any order: the de-duplicated walk lists only
+    what the lookup serves under the listed name. *)
+Theorem c19_chain_walk_with_directory_members : forall dops ms folder x,
+  dedup_ops_ok dops = true -> okp folder -> Forall (gmember_ok folder) ms ->
+  In x (chain_walk RelDropSegs dops ms folder) ->
+  chain_get ms (fst x) = Some (snd x).
+Proof. exact chain_walk_lookup_closed_mixed. Qed.
+(** The exactness premise is needed ("for exact-case names"): a directory holding "sub/x" in front of a zip holding
+    "sub/x", walked as "Sub": the zip's file is listed, the lookup of the listed name returns the directory's. *)
+Theorem c19_chain_walk_directory_folder_case_refuted :
+  chain_walk RelDropSegs [OFold] dir_then_zip [83; 117; 98] = [(subx, (subx, [2]))]
+  /\ chain_get dir_then_zip subx = Some (subx, [1])
+  /\ chain_walk RelDropSegs [OFold] dir_then_zip [115; 117; 98] = [(subx, (subx, [1]))].
+Proof. exact walk_dir_folder_case_refuted. Qed.
+Example c19_chain_walk_mixed_premises_satisfiable : Forall (gmember_ok [115; 117; 98]) dir_then_zip /\ okp [115; 117; 98].
+Proof. exact walk_mixed_premises_satisfiable. Qed.
